@@ -165,8 +165,8 @@ class StubState:
     def purge(self, body, patch, storage, handlers): self.vc.emit('purge', self, body, patch, storage, handlers)
 
 
-@harness('H1', targets='kopf._core.reactor.processing.process_changing_cause', props=['C02', 'C03', 'C05', 'C08', 'C14', 'C13', 'C11', 'C06'],
-         prop_clauses={'C13': ['flag_only_set'], 'C11': ['flag_only_set', 'closure_iff_done_or_skip', 'store_before_purge', 'executes_selected_with_state'], 'C06': ['closure_iff_done_or_skip', 'gate', 'executes_selected_with_state']},        # C13 "no handler executed twice because of the pause": the resume-once flag
+@harness('H1', targets='kopf._core.reactor.processing.process_changing_cause', props=['C02', 'C03', 'C05', 'C08', 'C14', 'C13', 'C11', 'C06', 'C15', 'C16', 'C04'],
+         prop_clauses={'C13': ['flag_only_set'], 'C11': ['flag_only_set', 'closure_iff_done_or_skip', 'store_before_purge', 'executes_selected_with_state', 'returns_delays', 'superseded_handlers_repurposed', 'essence_is_new'], 'C06': ['closure_iff_done_or_skip', 'gate', 'executes_selected_with_state', 'returns_delays'], 'C15': ['gate', 'executes_selected_with_state', 'closure_iff_done_or_skip', 'essence_is_new'], 'C16': ['store_before_purge'], 'C04': ['gate', 'closure_iff_done_or_skip', 'essence_is_new', 'executes_selected_with_state']},        # C13 "no handler executed twice because of the pause": the resume-once flag
          clauses=['gate', 'closure_iff_done_or_skip', 'store_before_purge', 'essence_is_new', 'flag_only_set',
                   'returns_delays', 'executes_selected_with_state', 'superseded_handlers_repurposed', 'results_delivered'],
          canaries=['canary.always_closes'],
